@@ -101,6 +101,7 @@ func (r *Reader) unindexedIterator(opts *ReadOptions) *unindexedMessageIterator 
 		topics:           topicMap,
 		start:            opts.StartNanos,
 		end:              opts.EndNanos,
+		endUnbounded:     opts.endUnbounded,
 		metadataCallback: opts.MetadataCallback,
 	}
 }
@@ -120,6 +121,7 @@ func (r *Reader) indexedMessageIterator(
 		topics:           topicMap,
 		start:            opts.StartNanos,
 		end:              opts.EndNanos,
+		endUnbounded:     opts.endUnbounded,
 		order:            opts.Order,
 		metadataCallback: opts.MetadataCallback,
 	}
@@ -129,11 +131,12 @@ func (r *Reader) Messages(
 	opts ...ReadOpt,
 ) (MessageIterator, error) {
 	options := ReadOptions{
-		StartNanos: 0,
-		EndNanos:   math.MaxUint64,
-		Topics:     nil,
-		UseIndex:   true,
-		Order:      FileOrder,
+		StartNanos:   0,
+		EndNanos:     math.MaxUint64,
+		Topics:       nil,
+		UseIndex:     true,
+		Order:        FileOrder,
+		endUnbounded: true,
 	}
 	for _, opt := range opts {
 		err := opt(&options)
